@@ -36,6 +36,9 @@ static Fields gen(Tape &t) {
     // half of the huge lists are tuned: the last value's length is solved for so that the worst-case total lands exactly on
     // INT_MAX-2 .. INT_MAX+2 (the sums of the other lengths rarely hit such a boundary by themselves)
     f.seti("tune", t.coin() ? 0 : 1 + (int)t.below(5));
+    // what is tuned: 0 the total of the list, 1 the contribution of the last item alone ('&' + key + '=' + value), which
+    // for a non-first item can be exactly INT_MAX or INT_MAX + 1 while key and value are each below the per-item limit
+    f.seti("tunemode", t.below(2));
     return f;
   }
   int n = t.range(1, 6);
@@ -284,7 +287,7 @@ static Verdict check_huge(const Fields &f) {
   std::vector<UriQueryListA> nodes((size_t)n);
   long long T = 0;
   bool perItemTooBig = false;
-  long long lastVl = 0;
+  long long lastVl = 0, lastKl = 0;
   auto pickLen = [&](long long sel) -> long long {
     switch (sel % 8) {
       case 0: return 10;
@@ -308,21 +311,22 @@ static Verdict check_huge(const Fields &f) {
     nodes[(size_t)i].value = hasV ? buf + (HUGE_BUF - (size_t)vl) : nullptr;
     nodes[(size_t)i].next = i + 1 < n ? &nodes[(size_t)i + 1] : nullptr;
     if (kl >= lim || vl >= lim) perItemTooBig = true;
-    lastVl = vl;
+    lastVl = vl; lastKl = kl;
     T += (i ? 1 : 0) + w * kl + (hasV ? 1 + w * vl : 0);
   }
   int tune = (int)f.geti("tune");
   if (tune > 0 && n >= 1 && nodes[(size_t)n - 1].value != nullptr && !perItemTooBig) {
     // T = rest + w * vl(last): solve for vl so that T == INT_MAX + (tune - 3) if that is a whole number below the per-item limit
     long long vlOld = lastVl;
-    long long rest = T - w * vlOld;
+    bool itemMode = f.geti("tunemode") == 1 && n >= 2;
+    long long rest = itemMode ? 1 + w * lastKl + 1 : T - w * vlOld;
     long long target = (long long)INT_MAX + (tune - 3);
     if ((target - rest) % w == 0) {
       long long vl = (target - rest) / w;
       if (vl >= 0 && vl < lim && vl <= (long long)HUGE_BUF) {
         nodes[(size_t)n - 1].value = buf + (HUGE_BUF - (size_t)vl);
-        T = target;
-        stats().hit("huge:tuned_to_INT_MAX" + std::string(tune < 3 ? "-" : "+") + std::to_string(tune < 3 ? 3 - tune : tune - 3));
+        T = T - w * vlOld + w * vl;
+        stats().hit(std::string(itemMode ? "huge:last_item_tuned_to_INT_MAX" : "huge:tuned_to_INT_MAX") + (tune < 3 ? "-" : "+") + std::to_string(tune < 3 ? 3 - tune : tune - 3));
       }
     }
   }
